@@ -179,6 +179,8 @@ def dict_comprehension(I, e):
         raise Unsupported("nested comprehension")
     g = e.generators[0]
     it = I.ev(g.iter)
+    if isinstance(it, tuple) and it and it[0] == "zip" and len(it) == 3:
+        return zip_comprehension(I, e, g, it[1], it[2])
     if not isinstance(it, KeyIter):
         ext = I.registry.get("dictcomp")
         if ext is not None:
@@ -232,3 +234,62 @@ def list_comprehension(I, e):
     if ext is not None:
         return ext(I, e)
     raise Unsupported("list comprehension at %s:%d" % (I.frame().relpath, e.lineno))
+
+
+def zip_comprehension(I, e, g, keys, values):
+    """{key(c): v for c, v in zip(keys, values) if ...} for a sequence of contracts whose static hashes are
+    pairwise distinct: the sequence carries a ghost inverse `inv` with inv(sh(keys[i])) == i (from `requires`).
+    The resulting map is dom(k) <=> 0 <= inv(k) < n and key(inv(k)) == k and cond(inv(k));  get(k) = v(inv(k))."""
+    pk = I.heap[keys.oid] if isinstance(keys, Obj) and keys.kind == "seq" else None
+    pv = I.heap[values.oid] if isinstance(values, Obj) and values.kind == "seq" else None
+    if pk is None or pv is None or "at" not in pk or "at" not in pv or "inv" not in pk:
+        raise Unsupported("zip comprehension needs a contract sequence with an inverse and a value array")
+    inv = pk["inv"]
+    n = pk["len"]
+    fr = I.frame()
+    saved = dict(fr.env)
+    ic = I.int("ic")
+    I.no_fork += 1
+    I.solver.push()
+    I.asolver.push()
+    sites0, cache0 = set(I.abs.sites), set(I.abs.cache)
+    try:
+        I._assert(z3.And(ic >= 0, ic < n, ic < pv["len"]))
+        for f in I.__dict__.get("pwi", []):
+            I._assert(f(ic))
+        I.assign(g.target, (pk["at"](ic), pv["at"](ic)))
+        cond = TRUE
+        for cnd in g.ifs:
+            c = I.truth(I.ev(cnd))
+            c = z3.BoolVal(c) if isinstance(c, bool) else c
+            cond = z3.And(cond, c)
+            I._assert(c)
+        kv = I.ev(e.key)
+        vv = I.ev(e.value)
+        if not isinstance(kv, KeyV):
+            raise Unsupported("comprehension key %r" % (kv,))
+        # the key expression must be the one the inverse is an inverse of
+        if I.sat_possible(inv(kv.t) != ic):
+            raise Unsupported("zip comprehension: no inverse for the key expression")
+    finally:
+        I.solver.pop()
+        I.asolver.pop()
+        for k_ in [x for x in I.abs.sites if x not in sites0]:
+            del I.abs.sites[k_]
+        for k_ in [x for x in I.abs.cache if x not in cache0]:
+            del I.abs.cache[k_]
+        I.no_fork -= 1
+        fr.env.clear()
+        fr.env.update(saved)
+    cond = z3.simplify(cond)
+    vv = lift_fl(vv) if isinstance(vv, (In, int, float)) else vv
+    kt = kv.t
+    m = z3.If(n <= pv["len"], n, pv["len"])
+
+    def dom(x):
+        j = inv(x)
+        return z3.And(j >= 0, j < m, z3.substitute(kt, (ic, j)) == x, z3.substitute(cond, (ic, j)))
+
+    def get(x):
+        return _subst_value(vv, ic, inv(x))
+    return I.new_map(get, dom, None, "dict")
